@@ -113,7 +113,17 @@ fn main() {
     // silence panic messages of the code under test (they are data, reported in the result)
     std::panic::set_hook(Box::new(|_| {}));
     let stdin = std::io::stdin();
-    let stdout = std::io::stdout();
+    // the code under test prints to stdout/stderr: keep the result channel on a private
+    // descriptor and point 1 and 2 at /dev/null
+    let stdout = unsafe {
+        use std::os::unix::io::FromRawFd;
+        let keep = libc::fcntl(1, libc::F_DUPFD_CLOEXEC, 100);
+        let dn = libc::open(b"/dev/null\0".as_ptr() as *const libc::c_char, libc::O_WRONLY);
+        libc::dup2(dn, 1);
+        libc::dup2(dn, 2);
+        libc::close(dn);
+        std::sync::Mutex::new(std::fs::File::from_raw_fd(keep))
+    };
     let mut sh = x::shell::Shell::new();
     let _ = &vhk::fake_kernel_installed;
     for l in stdin.lock().lines() {
@@ -127,7 +137,7 @@ fn main() {
         let case: Value = match serde_json::from_str(&l) {
             Ok(v) => v,
             Err(e) => {
-                let mut o = stdout.lock();
+                let mut o = stdout.lock().unwrap();
                 let _ = writeln!(o, "{}", json!({"tool_error": format!("bad case json: {}", e)}));
                 let _ = o.flush();
                 continue;
@@ -155,7 +165,7 @@ fn main() {
         if let Value::Object(ref mut m) = res {
             m.insert("id".to_string(), id);
         }
-        let mut o = stdout.lock();
+        let mut o = stdout.lock().unwrap();
         let _ = writeln!(o, "{}", res);
         let _ = o.flush();
     }
